@@ -6,6 +6,7 @@ from .. import locks as L
 META = {
     "technique": "held-guard dataflow on MIR + inter-procedural lock-order graph + dominance",
     "explanation": (
+        "R-C14.6: every point read of a tree outside the meta keyspace reads at the instant of a registered view (one notion of visible for get/contains_key/size_of and scans: no read sees a write between apply and publish). R-C14.7: the write-halt loop sends a Compact request on every iteration (a halted writer asks for the work it waits for). "
         "Decides the lock discipline that linearizability of single operations rests on: (1) in every write entry point the "
         "journal mutex guard is must-held (on all CFG paths) at the seqno draw, the journal append, persist, every memtable "
         "apply and the publish, and is acquired once; (2) memtable rotation re-checks the memtable id under the journal lock "
